@@ -275,6 +275,16 @@ func scenarios(tier string) []scen {
 			}
 		}
 	}
+	// large limits (the defaults are --max-retry 5, --max-redirect 20): the bounds must hold for every value,
+	// not only for the small ones of the grid above
+	for _, f := range fam {
+		if strings.HasPrefix(f.name, "nested-") || f.name == "hub" || f.name == "page-lists-itself" {
+			continue
+		}
+		for _, lim := range [][2]int{{5, 5}, {6, 7}, {20, 9}, {21, 12}} {
+			out = append(out, scen{Family: f.name, Seed: f.seed, MaxRedirect: lim[0], MaxRetry: lim[1], MaxHops: 0, DC: "off"})
+		}
+	}
 	if tier == "thorough" {
 		for i := range out {
 			out[i].P = 2
